@@ -808,6 +808,123 @@ def gen_conversion(repo, timedelta):
     return m
 
 
+def gen_complex_convert(repo, dtypes):
+    """T25: nitypes.complex.convert_complex and _convert_complexint32_array: the validation, the identity route, the ComplexInt32 route
+    with its 0-d detour (reshape(1) ... [0]) and the plain astype route, as an if-chain over a small vocabulary of conditions and
+    array expressions whose NumPy meaning is in Model/Complex.lean (reshape1, index0, viewFields, FArr.astype, viewAs, astypeArr)"""
+    ast = T.ast
+    m = T.Module(f"{repo}/src/nitypes/complex/_conversion.py", "Gen.ComplexConvert", imports=[dtypes])
+    m.extra_imports = ["NiVerif.Model.Complex"]
+
+    def strip(body):
+        return [st for st in body if not (isinstance(st, ast.Expr) and isinstance(st.value, ast.Constant))]
+
+    def impl(name):
+        fs = [n for n in m.tree.body if isinstance(n, ast.FunctionDef) and n.name == name
+              and not any(ast.unparse(d) == "overload" for d in n.decorator_list)]
+        if len(fs) != 1:
+            raise T.Untranslatable(f"{name}: expected exactly one implementation, found {len(fs)}", where=m.path)
+        return fs[0]
+
+    ATOM = {"requested_dtype == value.dtype": "req = value.dtype", "value.dtype == requested_dtype": "req = value.dtype",
+            "requested_dtype == ComplexInt32DType": "req = Model.Complex.DT.ci32", "ComplexInt32DType == requested_dtype": "req = Model.Complex.DT.ci32",
+            "value.dtype == ComplexInt32DType": "value.dtype = Model.Complex.DT.ci32", "ComplexInt32DType == value.dtype": "value.dtype = Model.Complex.DT.ci32",
+            "value.shape == ()": "value.shape = []", "value.ndim == 0": "value.shape = []"}
+
+    def cond(e):
+        if isinstance(e, ast.BoolOp):
+            op = " ∨ " if isinstance(e.op, ast.Or) else " ∧ "
+            return "(" + op.join(cond(v) for v in e.values) + ")"
+        if isinstance(e, ast.UnaryOp) and isinstance(e.op, ast.Not):
+            return "¬ " + cond(e.operand)
+        s = ast.unparse(e)
+        if s in ATOM:
+            return "(" + ATOM[s] + ")"
+        raise T.Untranslatable(f"convert_complex: condition `{s}` is outside the vocabulary", e, m.path)
+
+    def arr(e):
+        """an array-valued expression -> a Lean term of type Except PyErr Arr"""
+        if isinstance(e, ast.Call) and ast.unparse(e.func) == "cast" and len(e.args) == 2:
+            return arr(e.args[1])                                 # typing.cast is the identity
+        if isinstance(e, ast.Name) and e.id == "value":
+            return "Except.ok value"
+        if isinstance(e, ast.Call) and ast.unparse(e.func) == "_convert_complexint32_array" and len(e.args) == 2 and not e.keywords \
+                and ast.unparse(e.args[0]) == "requested_dtype":
+            return f"Except.bind ({arr(e.args[1])}) (fun v => _convert_complexint32_array req v)"
+        if isinstance(e, ast.Call) and isinstance(e.func, ast.Attribute) and e.func.attr == "reshape" and [ast.unparse(a) for a in e.args] == ["1"] and not e.keywords:
+            return f"Except.bind ({arr(e.func.value)}) Model.Complex.reshape1"
+        if isinstance(e, ast.Subscript) and ast.unparse(e.slice) == "0":
+            return f"Except.bind ({arr(e.value)}) Model.Complex.index0"
+        if isinstance(e, ast.Call) and isinstance(e.func, ast.Attribute) and e.func.attr == "astype" and [ast.unparse(a) for a in e.args] == ["requested_dtype"] and not e.keywords:
+            return f"Except.bind ({arr(e.func.value)}) (Model.Complex.astypeArr req)"
+        raise T.Untranslatable(f"convert_complex: expression `{ast.unparse(e)}` is outside the vocabulary", e, m.path)
+
+    def block(body, ind):
+        body = strip(body)
+        if len(body) != 1:
+            raise T.Untranslatable("convert_complex: a branch is not a single return / if:\n" + "\n".join(ast.unparse(s) for s in body), body[0] if body else None, m.path)
+        st = body[0]
+        if isinstance(st, ast.Return) and st.value is not None:
+            return ind + arr(st.value)
+        if isinstance(st, ast.If) and st.orelse:
+            return f"{ind}if {cond(st.test)} then\n{block(st.body, ind + '  ')}\n{ind}else\n{block(st.orelse, ind + '  ')}"
+        raise T.Untranslatable(f"convert_complex: statement `{ast.unparse(st)}` is outside the vocabulary", st, m.path)
+
+    # ---- _convert_complexint32_array
+    inner = impl("_convert_complexint32_array")
+    if [a.arg for a in inner.args.args] != ["requested_dtype", "value"]:
+        raise T.Untranslatable("_convert_complexint32_array: parameters", inner, m.path)
+    ib = [ast.unparse(st) for st in strip(inner.body)]
+    NORM = "if not isinstance(requested_dtype, np.dtype):\n    requested_dtype = np.dtype(requested_dtype)"
+    CONTIG = "if not value.flags.c_contiguous:\n    value = np.ascontiguousarray(value)"
+    want = [NORM, "requested_field_dtype = _FIELD_DTYPE.get(requested_dtype)",
+            "if requested_field_dtype is None:\n    raise unsupported_dtype('requested data type', requested_dtype, _COMPLEX_DTYPES)",
+            "value_field_dtype = _FIELD_DTYPE.get(value.dtype)",
+            "if value_field_dtype is None:\n    raise unsupported_dtype('array data type', value.dtype, _COMPLEX_DTYPES)",
+            CONTIG]
+    if ib[:-1] != want or not ib[-1].startswith("return "):
+        raise T.Untranslatable("_convert_complexint32_array is not the expected statement list:\n" + "\n".join(ib), inner, m.path)
+    # the returned chain: value.view(F1).astype(F2).view(D) - each link is translated on its own
+    chain = []
+    e = strip(inner.body)[-1].value
+    while isinstance(e, ast.Call) and isinstance(e.func, ast.Attribute) and len(e.args) == 1 and not e.keywords:
+        chain.append((e.func.attr, ast.unparse(e.args[0])))
+        e = e.func.value
+    chain.reverse()
+    if not (isinstance(e, ast.Name) and e.id == "value"):
+        raise T.Untranslatable(f"_convert_complexint32_array: the returned chain does not start at `value`: {ast.unparse(e)}", inner, m.path)
+    term, ty = "value", "arr"
+    for meth, arg in chain:
+        if ty == "arr" and meth == "view" and arg in ("value_field_dtype", "requested_field_dtype"):
+            term, ty = f"Model.Complex.viewFields {arg} ({term})", "farr"
+        elif ty == "farr" and meth == "astype" and arg in ("value_field_dtype", "requested_field_dtype"):
+            term = f"Model.Complex.FArr.astype {arg} ({term})"
+        elif ty == "farr" and meth == "view" and arg == "requested_dtype":
+            term, ty = f"Model.Complex.viewAs req ({term})", "arr"
+        else:
+            raise T.Untranslatable(f"_convert_complexint32_array: `.{meth}({arg})` on a {'field' if ty == 'farr' else 'complex'} array is outside the vocabulary", inner, m.path)
+    if ty != "arr":
+        raise T.Untranslatable("_convert_complexint32_array: the returned chain ends in a field array", inner, m.path)
+    m.out.append("/-- generated from `_convert_complexint32_array` (the dtype normalisation and the C-contiguous copy do not change the logical elements) -/")
+    m.out.append("@[pygen] def _convert_complexint32_array (req : Model.Complex.DT) (value : Model.Complex.Arr) : Except PyErr Model.Complex.Arr :=\n"
+                 "  match Model.Complex.fieldOf req with\n  | none => Except.error PyErr.TypeError\n  | some requested_field_dtype =>\n"
+                 "  match Model.Complex.fieldOf value.dtype with\n  | none => Except.error PyErr.TypeError\n  | some value_field_dtype =>\n"
+                 f"  Except.ok ({term})")
+    m.out.append("")
+    # ---- convert_complex
+    top = impl("convert_complex")
+    if [a.arg for a in top.args.args] != ["requested_dtype", "value"]:
+        raise T.Untranslatable("convert_complex: parameters", top, m.path)
+    tb = strip(top.body)
+    if not tb or ast.unparse(tb[0]) != "validate_dtype(requested_dtype, _COMPLEX_DTYPES)":
+        raise T.Untranslatable("convert_complex does not start with validate_dtype(requested_dtype, _COMPLEX_DTYPES)", top, m.path)
+    m.out.append("/-- generated from `convert_complex` -/")
+    m.out.append("@[pygen] def convert_complex (req : Model.Complex.DT) (value : Model.Complex.Arr) : Except PyErr Model.Complex.Arr :=\n"
+                 "  if ¬ (Model.Complex.supported req = true) then Except.error PyErr.TypeError else\n" + block(tb[1:], "  "))
+    m.out.append("")
+    return m
+
+
 MODULES = [
     # (output file, builder, dependencies by output name)
     ("TimeValueTuple", lambda repo, deps: gen_time_value_tuple(repo), []),
@@ -838,6 +955,7 @@ MODULES = [
     ("GetTimestamps", lambda repo, deps: gen_get_timestamps(repo, deps["Regular"]), ["Regular"]),
     ("ScaledData", lambda repo, deps: gen_scaled_data(repo, deps["Scaling"]), ["Scaling"]),
     ("Conversion", lambda repo, deps: gen_conversion(repo, deps["TimeDelta"]), ["TimeDelta"]),
+    ("ComplexConvert", lambda repo, deps: gen_complex_convert(repo, deps["ComplexDtypes"]), ["ComplexDtypes"]),
 ]
 
 
